@@ -73,14 +73,24 @@ def run(ctx):
     try:
         found = set()
         for v in ctx.views.real_views():
-            if v.cls.fq == 'petl.io.json:DictsGeneratorView':
+            if v.cls.fq in ('petl.io.json:DictsGeneratorView', 'petl.transform.sorts:SortView'):
                 c01.r13(ctx, sub, v, found)
     finally:
         ctx.report = saved
     n7 = 0
+    n8 = 0
     for o in sub.obligations:
+        if o.module == 'petl.transform.sorts':
+            n8 += 1
+            rep.add('R18.8', (o.module, o.qualname), o.construct, o.status, o.message, o.lineno, o.detail)
+            continue
         n7 += 1
         rep.add('R18.7', (o.module, o.qualname), o.construct, o.status, o.message, o.lineno, o.detail)
+    rep.rule('R18.8', 'sort caches: an iterator served from the chunk files works on the header, file list and key function '
+                      'it was given when it was created (snapshot discipline of C01 R1.3 for SortView): clearing or refilling '
+                      'the view\'s caches cannot change what a pending iterator yields')
+    if n8 < 3:
+        raise AnalysisError('anchor vanished: shared-state obligations of SortView (%d)' % n8)
     if n7 < 3:
         raise AnalysisError('anchor vanished: spill-file obligations of DictsGeneratorView (%d)' % n7)
     rep.rule('R18.7', 'spill file of fromdicts: every dump is preceded by a seek to the shared end mark, every load by a seek to the '
